@@ -79,7 +79,7 @@ func (m *ServeMux) ServeRESP(conn redcon.Conn, cmd redcon.Command) {
 			conn.WriteError(fmt.Sprintf("ERR wrong number of arguments for '%s' command", command))
 			return
 		}
-		command = fmt.Sprintf("%s %s", command, util.BytesToString(cmd.Args[1]))
+		command = fmt.Sprintf("%s %s", command, strings.ToLower(util.BytesToString(cmd.Args[1])))
 	}
 
 	if handler, ok := m.handlers[command]; ok {
